@@ -140,7 +140,22 @@ def gen_hash(rng, tier, mult):
     for dk in longs:
         cases.append(["pbkdf2sum %s %s 1 %d" % (hx(data(rl, rl.range(0, 70))), hx(data(rl, rl.range(0, 60))), dk)])
     cases += big_cases(rng.fork("big"), tier, mult, ["sha1", "md5"] + (["sha256"] if mult >= 10 else []), 1 << 29)
-    return cases
+    # first in the list: the shards are cases[i::nshards], so each long case opens a different shard and its model run
+    # (3 s per 32 MiB) overlaps with the rest instead of being appended to it
+    return bigd_cases(rng.fork("bigd"), tier, mult) + cases
+
+
+def bigd_cases(r, tier, mult):
+    """real data whose BIT count has bits 28.. set (>= 2^25 bytes), against the model (`bigd`): the implementation hashes
+    `pattern n seed` with one *_Buf call and with _Init/_Update/_Final; pmodel streams the model's _Update over the same
+    bytes in 2^16-byte chunks, and `C01.exec_bigd_eq_spec` says that what it prints is the specified digest.  Every run:
+    sha256 at 2^25 + k; thorough tier and failing-input search: also sha1, md5 at 2^25 + k and sha256 at 2^27 + k."""
+    if os.environ.get("VERIF_NO_BIG"):
+        return []
+    specs = [("sha256", 1 << 25)]
+    if tier != "quick" or mult >= 10:
+        specs += [("sha1", 1 << 25), ("md5", 1 << 25), ("sha256", 1 << 27)]
+    return [["bigd %s %d %d" % (a, size + r.range(1, 300), r.range(0, 255))] for a, size in specs]
 
 
 def big_cases(r, tier, mult, algs, size):
@@ -214,6 +229,9 @@ def classify(case, out):
             tags.append("addcnt(counter carry)")
         elif t[0] == "big":
             tags.append("big:%s:one-call-of-%s-bytes" % (t[1], ">=2^32" if int(t[2]) >= 1 << 32 else ">=2^29"))
+        elif t[0] == "bigd":
+            n = int(t[2])
+            tags.append("bigd:%s:%s-bytes-against-the-model" % (t[1], ">=2^27" if n >= 1 << 27 else ">=2^25" if n >= 1 << 25 else "<2^25"))
     for o in out:
         if o == "skip":
             tags.append("skipped_op")
@@ -242,7 +260,7 @@ def nontrivial_hash(case):
             n += 2
         elif t[0] == "buf" and oplen(op) >= 56:
             n += 2
-        elif t[0] == "big":
+        elif t[0] in ("big", "bigd"):
             n += 2
     return n >= 2
 
@@ -259,6 +277,9 @@ def components(ctx):
                             "HMAC key lengths 0..200 weighted to {63,64,65,128,131,200}; PBKDF2 dkLen 0..100 incl. non-multiples of 32, c in 1..7 (10%: up to 20/60), "
                             "salt lengths around 51/52/59/60 (INT(i) crossing a block); non-trivial = >= 2 data-carrying update calls, or HMAC/PBKDF2, or one-shot >= 56 bytes; "
                             "every run (sha1, md5; sha256 in the failing-input search): one `big` case per algorithm = ONE update call of 2^29 + k bytes against two other partitions of the same bytes; "
+                            "every run: one `bigd sha256 <2^25 + k> <seed>` = 32 MiB + k bytes of a computed pattern (bit count with bit 28 set) hashed by one *_Buf call and by "
+                            "_Init/_Update/_Final, against the model streamed over the same bytes (= the Spec's digest: exec_bigd_eq_spec); thorough tier and failing-input search: "
+                            "also sha1 and md5 at 2^25 + k and sha256 at 2^27 + k; "
                             "distinct by hash of the op list",
                        classify=classify),
         vlib.Component("crc", "h_hash.c", SRCS, ["hash"], gen_crc, cpu=[],
